@@ -639,17 +639,42 @@ pub enum ValueReference<T> {
     Mutable(Rc<RefCell<T>>),
 }
 
+thread_local! {
+    // the mutable vectors whose elements are being written right now, innermost last
+    static DISPLAY_PATH: RefCell<Vec<*const ()>> = RefCell::new(Vec::new());
+}
+
+struct DisplayPathGuard;
+
+impl Drop for DisplayPathGuard {
+    fn drop(&mut self) {
+        DISPLAY_PATH.with(|path| {
+            path.borrow_mut().pop();
+        });
+    }
+}
+
 impl<T: Display> Display for ValueReference<Vec<T>> {
     fn fmt(&self, f: &mut Formatter<'_>) -> fmt::Result {
         match *self {
             Self::Immutable(ref vec) => {
                 write!(f, "{}", join(vec.iter().map(|v| format!("{}", v)), " "))
             }
-            Self::Mutable(ref vec) => write!(
-                f,
-                "{}",
-                join(vec.borrow().iter().map(|v| format!("{}", v)), " ")
-            ),
+            Self::Mutable(ref vec) => {
+                // a vector can be stored into itself (or into something it contains): the inner
+                // occurrence is written as `...` instead of recursing until the stack overflows
+                let address = Rc::as_ptr(vec) as *const ();
+                if DISPLAY_PATH.with(|path| path.borrow().contains(&address)) {
+                    return write!(f, "...");
+                }
+                DISPLAY_PATH.with(|path| path.borrow_mut().push(address));
+                let _guard = DisplayPathGuard;
+                write!(
+                    f,
+                    "{}",
+                    join(vec.borrow().iter().map(|v| format!("{}", v)), " ")
+                )
+            }
         }
     }
 }
